@@ -82,3 +82,19 @@ Theorem answer_resolves_the_request_with_its_tag : forall s q tag n c,
                     /\ (x = EResult c (ROk n) \/ x = EAbsorbed c (ROk n)).
 Proof. exact answer_resolves_its_tag. Qed.
 Print Assumptions answer_resolves_the_request_with_its_tag.
+
+(** cancellation (Deferred.cancel on a call's Deferred, which has no canceller): the dispatcher is not
+    touched -- the tag stays outstanding, nothing is sent -- and whatever the dispatcher later has for
+    that call (the peer's late answer or error, or the loss reason) is swallowed by the Deferred; the
+    theorems above count that swallowed firing ([EAbsorbed]) as the dispatcher's one firing of the call *)
+Theorem cancel_leaves_the_dispatcher_untouched : forall s c, mem c (follows s) = false ->
+  let s' := fst (step s (OCancel c)) in
+  outA s' = outA s /\ outB s' = outB s /\ cntA s' = cntA s /\ cntB s' = cntB s /\ chA s' = chA s /\ chB s' = chB s
+  /\ pending s' = pending s /\ up s' = up s /\ ncalls s' = ncalls s.
+Proof. exact cancel_untouched. Qed.
+Print Assumptions cancel_leaves_the_dispatcher_untouched.
+
+Theorem late_result_of_a_cancelled_call_is_absorbed : forall s q c r,
+  mem c (cancelled s) = true -> fire_result q c r s = (s, [EAbsorbed c r]).
+Proof. exact cancelled_absorbs. Qed.
+Print Assumptions late_result_of_a_cancelled_call_is_absorbed.
